@@ -6,6 +6,7 @@ import re
 
 from kfv import flow
 from kfv.core import Ctx
+from kfv.rules import memo_rules as MEMO
 from kfv.model import norm
 from kfv.rules import c16
 from kfv.rules import precond_rules as R
@@ -113,3 +114,4 @@ def run(ctx: Ctx) -> None:
     ctx.do(TR.rule_layout)
     ctx.do(c16.rule_hookreg)
     ctx.do(rule_num_prescale)
+    ctx.do(MEMO.rule_memo)
